@@ -3,9 +3,12 @@ package tlslogeng
 // The C28 oracle: every populated part of the client's handshake log is compared with the
 // independently parsed transcript and with the secrets of the key logs.
 //
-// Interpretation (DESIGN 2.7): "populated" = non-zero / non-empty / non-nil. A zero value is never
-// asserted against the wire (it is counted as unpopulated:<field> in the evidence when the wire has a
-// value). A boolean that is true asserts the presence of its extension. On a HelloRetryRequest the log
+// Interpretation (DESIGN 2.7): outside the hello messages "populated" = non-zero / non-empty / non-nil and
+// a zero value is counted as unpopulated:<field> when the wire has a value. The ClientHello and ServerHello
+// log structs are populated as a whole: a presence flag must equal "the extension is on the wire" in both
+// directions and an empty list / string where the wire has a value is a mismatch (key suffix :missing),
+// except for the fields listed in helloLenient, whose meaning is ambiguous or whose extension the message
+// parser does not know (these stay counted). On a HelloRetryRequest the log
 // keeps one ClientHello and one ServerHello slot; the oracle accepts either exchanged message for each
 // slot (all fields against the same message) and counts which one was recorded.
 
@@ -32,6 +35,32 @@ type chk struct {
 	mm     []mismatch
 	counts map[string]int
 	fields int
+	strict bool // hello structs: a zero log value against a present wire value is a mismatch
+}
+
+// helloLenient lists the hello fields whose zero value is not asserted, with the reason.
+var helloLenient = map[string]string{
+	"client_hello.secure_renegotiation": "the flag is computed as 'renegotiation_info present AND its body non-empty'; on an initial handshake the body is empty by RFC 5746, so false may mean 'no renegotiation in progress'",
+	"server_hello.secure_renegotiation": "same definition as the ClientHello flag",
+	"client_hello.sct_enabled":          "echo of Config.SignedCertificateTimestampExt; the wire fact (extension 18) is the separate flag scts",
+	"client_hello.heartbeat":            "clientHelloMsg has no heartbeat field and never writes the extension; nothing to assign",
+	"server_hello.heartbeat":            "serverHelloMsg does not parse extension 15; it is logged among unknown_extensions / extension_identifiers",
+	"server_hello.extended_random":      "serverHelloMsg does not parse extension 40; it is logged among unknown_extensions / extension_identifiers",
+	"client_hello.unknown_extensions":   "clientHelloMsg never retains unknown extensions (source: 'TODO: populate') and the client cannot emit any",
+	"client_hello.signature_and_hashes": "the log renders only the schemes zcrypto has a name for; an in-order subsequence is accepted",
+	"client_hello.session_ticket":       "nil when the extension body is empty",
+}
+
+// zero handles a zero-valued log field whose wire counterpart is present.
+func (k *chk) zero(field string) {
+	if k.strict {
+		if _, ok := helloLenient[field]; !ok {
+			k.cmpf(field)
+			k.fail("mismatch:"+field+":missing", "log has no value (zero / empty / false), the wire message has one")
+			return
+		}
+	}
+	k.count("unpopulated:" + field)
 }
 
 func newChk() *chk { return &chk{counts: map[string]int{}} }
@@ -60,7 +89,7 @@ func hx(b []byte) string {
 func (k *chk) bytesField(field string, logv, wirev []byte, wirePresent bool) {
 	if len(logv) == 0 {
 		if len(wirev) > 0 {
-			k.count("unpopulated:" + field)
+			k.zero(field)
 		}
 		return
 	}
@@ -81,7 +110,7 @@ func (k *chk) bytesField(field string, logv, wirev []byte, wirePresent bool) {
 func (k *chk) boolField(field string, logv, wirev bool) {
 	if !logv {
 		if wirev {
-			k.count("unpopulated:" + field)
+			k.zero(field)
 		}
 		return
 	}
@@ -94,7 +123,7 @@ func (k *chk) boolField(field string, logv, wirev bool) {
 func (k *chk) u16List(field string, logv, wirev []uint16) {
 	if len(logv) == 0 {
 		if len(wirev) > 0 {
-			k.count("unpopulated:" + field)
+			k.zero(field)
 		}
 		return
 	}
@@ -107,7 +136,7 @@ func (k *chk) u16List(field string, logv, wirev []uint16) {
 func (k *chk) numField(field string, logv, wirev uint64, assertZero bool) {
 	if logv == 0 && !assertZero {
 		if wirev != 0 {
-			k.count("unpopulated:" + field)
+			k.zero(field)
 		}
 		return
 	}
@@ -120,7 +149,7 @@ func (k *chk) numField(field string, logv, wirev uint64, assertZero bool) {
 func (k *chk) bigField(field string, logv, wirev *big.Int) {
 	if logv == nil {
 		if wirev != nil {
-			k.count("unpopulated:" + field)
+			k.zero(field)
 		}
 		return
 	}
@@ -166,6 +195,7 @@ func jstr(v any) string { s, _ := v.(string); return s }
 
 func cmpClientHello(l *ztls.ClientHello, ch *clientHello, j any) *chk {
 	k := newChk()
+	k.strict = true
 	k.numField("client_hello.version", uint64(l.Version), uint64(ch.Vers), true)
 	k.bytesField("client_hello.random", l.Random, ch.Random, true)
 	k.bytesField("client_hello.session_id", l.SessionID, ch.SessionID, true)
@@ -224,7 +254,8 @@ func cmpClientHello(l *ztls.ClientHello, ch *clientHello, j any) *chk {
 			}
 		}
 	} else if len(ch.Ticket) > 0 {
-		k.count("unpopulated:client_hello.session_ticket")
+		k.cmpf("client_hello.session_ticket")
+		k.fail("mismatch:client_hello.session_ticket:missing", "the ClientHello offers a ticket of %d bytes, the log has none", len(ch.Ticket))
 	}
 	// signature_algorithms: the logged pairs must be a subsequence of the wire list under the naming relation
 	if len(l.SignatureAndHashes) > 0 {
@@ -264,7 +295,7 @@ func cmpClientHello(l *ztls.ClientHello, ch *clientHello, j any) *chk {
 			k.fail("mismatch:client_hello.signature_and_hashes:longer", "log has %d entries, wire %d", len(l.SignatureAndHashes), len(ch.SigAlgs))
 		}
 	} else if len(ch.SigAlgs) > 0 {
-		k.count("unpopulated:client_hello.signature_and_hashes")
+		k.zero("client_hello.signature_and_hashes")
 	}
 	if len(l.AlpnProtocols) > 0 {
 		k.cmpf("client_hello.alpn_protocols")
@@ -272,7 +303,7 @@ func cmpClientHello(l *ztls.ClientHello, ch *clientHello, j any) *chk {
 			k.fail("mismatch:client_hello.alpn_protocols", "log %q wire %q", l.AlpnProtocols, ch.ALPN)
 		}
 	} else if len(ch.ALPN) > 0 {
-		k.count("unpopulated:client_hello.alpn_protocols")
+		k.zero("client_hello.alpn_protocols")
 	}
 	cmpUnknownExts(k, "client_hello.unknown_extensions", l.UnknownExtensions, ch.Exts)
 	return k
@@ -306,6 +337,7 @@ func cmpUnknownExts(k *chk, field string, logv [][]byte, exts []extn) {
 
 func cmpServerHello(l *ztls.ServerHello, sh *serverHello, eeALPN string, tls13 bool) *chk {
 	k := newChk()
+	k.strict = true
 	k.numField("server_hello.version", uint64(l.Version), uint64(sh.Vers), true)
 	k.bytesField("server_hello.random", l.Random, sh.Random, true)
 	k.bytesField("server_hello.session_id", l.SessionID, sh.SessionID, true)
@@ -326,8 +358,12 @@ func cmpServerHello(l *ztls.ServerHello, sh *serverHello, eeALPN string, tls13 b
 		if l.AlpnProtocol != want {
 			k.fail("mismatch:server_hello.alpn_protocol", "log %q wire %q", l.AlpnProtocol, want)
 		}
-	} else if sh.ALPN != "" || (tls13 && eeALPN != "") {
-		k.count("unpopulated:server_hello.alpn_protocol")
+	} else if !tls13 && sh.ALPN != "" {
+		k.zero("server_hello.alpn_protocol")
+	} else if tls13 && eeALPN != "" {
+		// TLS 1.3 carries ALPN in EncryptedExtensions; the log copies it into this slot only when the
+		// handshake completes, so an aborted handshake legitimately leaves it empty
+		k.count("unpopulated:server_hello.alpn_protocol(tls13,from EncryptedExtensions)")
 	}
 	if len(l.SignedCertificateTimestamps) > 0 {
 		k.cmpf("server_hello.scts")
@@ -357,17 +393,17 @@ func cmpServerHello(l *ztls.ServerHello, sh *serverHello, eeALPN string, tls13 b
 			}
 		}
 	} else if len(sh.SCTs) > 0 {
-		k.count("unpopulated:server_hello.scts")
+		k.zero("server_hello.scts")
 	}
 	if l.SupportedVersions != nil {
 		k.numField("server_hello.supported_versions.selected_version", uint64(l.SupportedVersions.SelectedVersion), uint64(sh.SelectedVersion), true)
 	} else if sh.SelectedVersion != 0 {
-		k.count("unpopulated:server_hello.supported_versions")
+		k.zero("server_hello.supported_versions")
 	}
 	if l.KeyShare != nil && l.KeyShare.KeyExchange != nil {
 		k.numField("server_hello.key_share", uint64(*l.KeyShare.KeyExchange), uint64(sh.KeyShareGroup), true)
 	} else if sh.KeyShareGroup != 0 {
-		k.count("unpopulated:server_hello.key_share")
+		k.zero("server_hello.key_share")
 	}
 	if len(l.ExtensionIdentifiers) > 0 {
 		var w []uint16
@@ -376,7 +412,7 @@ func cmpServerHello(l *ztls.ServerHello, sh *serverHello, eeALPN string, tls13 b
 		}
 		k.u16List("server_hello.extension_identifiers", l.ExtensionIdentifiers, w)
 	} else if len(sh.Exts) > 0 {
-		k.count("unpopulated:server_hello.extension_identifiers")
+		k.zero("server_hello.extension_identifiers")
 	}
 	cmpUnknownExts(k, "server_hello.unknown_extensions", l.UnknownExtensions, sh.Exts)
 	return k
